@@ -57,6 +57,7 @@ var schedBodies = []string{
 	"PtstS.Apply(docS) [failing test]",
 	"Ps.Apply(docBad) [malformed]",
 	"DecodePatch(patchInv)",
+	"Ps.accessors() [Kind, Path, From, ValueInterface of every operation]",
 }
 
 func callIndex(w *apiWorld, name string) int {
